@@ -444,6 +444,14 @@ class TSPkoptEnv(ImprovementEnvBase):
             == solution.data.sort(1)[0]
         ).all(), "Not visiting all nodes"
 
+        # The successors must form a single cycle through all nodes (no sub-tours)
+        node = torch.zeros(batch_size, 1, dtype=torch.long, device=solution.device)
+        seen = torch.zeros_like(solution, dtype=torch.bool)
+        for _ in range(graph_size):
+            node = solution.gather(1, node)
+            seen.scatter_(1, node, True)
+        assert seen.all(), "Not a single tour through all nodes"
+
     def get_mask(self, td):
         # return mask that is 1 if the corresponding action is feasible, 0 otherwise
         visited_time = td["visited_time"]
